@@ -1,6 +1,7 @@
 """Hand-written MiniPy programs that run first in every end-to-end check (a corpus of minimised cases).
 
-The first four are the refutation witnesses of the guard clauses: on each of them the model of the
+The first five are the refutation witnesses of the guard clauses (four syntactic ones and the dynamic one,
+unbound_local_thunk, which a model run reports itself: Concrete/Run.v, o_notes): on each of them the model of the
 instrumented program differs from the reference semantics and from the original program; the same Coq
 terms are the witnesses of the `_refuted` theorems (coq/Py/Witness.v, written by tools/mkwitness.py from
 this file), and the implementation is run on them on every check so that a repaired implementation shows
@@ -34,7 +35,18 @@ WITNESSES = {
     # if a or b with the if hook: the operand that decided the disjunction has its truth tested a second time
     "truth_retest": ([("if", 1, ("bool", 2, "BOr", _call(3, 4, "r", _c(5, 1)), _call(6, 7, "k", _c(8, 0))), [("pass",)], [])],
                      ["enter_if"]),
+    # u = 5; def f0(): a = u; u = 1 with the read hook (libcst resolves the early read to the global u, so it is hooked): the read of the not-yet-bound local u happens inside `lambda: u`, where
+    # CPython raises NameError("cannot access free variable ...") instead of UnboundLocalError
+    "unbound_local_thunk": ([("assign", 9, [("tname", "u")], _c(10, 5)), ("def", 1, 0, "f0"), ("assign", 2, [("tname", "x")], ("call", 3, ("name", 4, "f0"), []))],
+                            ["read_identifier"]),
 }
+# the functions of the witnesses that have some
+WITNESS_FUNS = {
+    "unbound_local_thunk": [{"nid": 1, "name": "f0", "params": [], "locals": ["a", "u"],
+                             "body": [("assign", 5, [("tname", "a")], ("name", 6, "u")), ("assign", 7, [("tname", "u")], _c(8, 1))]}],
+}
+# witnesses whose clause is reported by the model run itself (dynamic), not by the syntactic guard
+DYNAMIC_WITNESSES = {"unbound_local_thunk"}
 
 # further regression cases (minimised from earlier disagreements between model and implementation)
 REGRESSIONS = {
@@ -293,6 +305,7 @@ def build(name, main=None, hooks=None, funs=None):
         funs, main, hooks = bare_return_program()
     if main is None:
         main, hooks = (WITNESSES.get(name) or REGRESSIONS[name])
+        funs = funs or WITNESS_FUNS.get(name)
     prog = {"funs": funs or [], "main": main}
     pr = genprog.Printer()
     src = pr.program(prog)
